@@ -565,6 +565,29 @@ func C01(run *mon.Run) {
 			verifyExpect(run, "C01", sk.PublicKey(), cand{b: sig, kind: "other-tag"}, msg, hB, false, fmt.Sprintf("shared-prefix-%d", l))
 		}
 		run.Shape("shared-prefix-tags")
+		// tags of equal length with equal CRC-32 (and equal byte sum): two identifiers that a checksum-keyed
+		// table cannot tell apart. Requested one after the other, each hasher equals its reference KMAC and
+		// a signature under one tag is not one under the other.
+		for i := 0; i < run.Pick(6, 30); i++ {
+			tagA := []byte(fmt.Sprintf("Flow-%d-colliding-tag-%s", i, string(base[:5+i])))
+			tagB := crc32Twin(tagA, 3+i%7)
+			for _, order := range [][2][]byte{{tagA, tagB}, {tagB, tagA}} {
+				h1 := crypto.NewExpandMsgXOFKMAC128(string(order[0]))
+				h2 := crypto.NewExpandMsgXOFKMAC128(string(order[1]))
+				run.Eval(2)
+				for j, hh := range []hash.Hasher{h1, h2} {
+					if want := ref.KMAC128(append(append([]byte{}, order[j]...), sigSuite...), msg, 128, []byte("H2C")); !bytes.Equal(hh.ComputeHash(msg), want) {
+						run.Violate("C01:expand-message-hasher:checksum-colliding-tags", fmt.Sprintf("two tags of %d bytes with equal CRC-32, requested one after the other: the hasher for %x does not equal its reference KMAC128", len(tagA), order[j]), map[string]any{"tag_a": mon.Hex(tagA), "tag_b": mon.Hex(tagB)})
+					}
+				}
+				sig, err := sk.Sign(msg, h1)
+				if err == nil {
+					verifyExpect(run, "C01", sk.PublicKey(), cand{b: sig, kind: "E"}, msg, h1, true, "crc-colliding-tags")
+					verifyExpect(run, "C01", sk.PublicKey(), cand{b: sig, kind: "other-tag"}, msg, h2, false, "crc-colliding-tags")
+				}
+			}
+		}
+		run.Shape("checksum-colliding-tags")
 	}
 	// signatures whose x has its top five bits clear: the header byte carries flags only, so
 	// flag handling that looks at the whole first byte is exercised on an *accepted* point
